@@ -150,9 +150,20 @@ def per_dtype(add, ls, ids, dt, si, n, nt, tier, tmpdir):
                 def fromnp():
                     m = np.array(vrows, dtype=dt).reshape(len(ls), ls[0])
                     a = RaggedArray.from_numpy_array(m)
-                    return [krows(a.tolist()), str(a.dtype), np.asarray(a.lengths).tolist()]
-                add("fromnumpy " + show(ids) + " " + str(ls[0]), dt, guarded(fromnp), lambda v: None if v is None else [tr(v), dt, [len(r) for r in v]],
+                    return [krows(a.tolist()), str(a.dtype), np.asarray(a.lengths).tolist(), krows([a[i].tolist() for i in range(len(a))]), krows(a[::-1].tolist())]
+                add("fromnumpy " + show(ids) + " " + str(ls[0]), dt, guarded(fromnp), lambda v: None if v is None else [tr(v), dt, [len(r) for r in v], tr(v), tr(v[::-1])],
                     "from_numpy", nt, f"RaggedArray.from_numpy_array(np.array({vrows!r}, dtype='{dt}').reshape({len(ls)},{ls[0]}))")
+                for layout in ("fortran", "transposed-view", "strided"):
+                    def fromnp2(layout=layout):
+                        m = np.array(vrows, dtype=dt).reshape(len(ls), ls[0])
+                        if layout == "fortran": m2 = np.asfortranarray(m)
+                        elif layout == "transposed-view": m2 = np.ascontiguousarray(m.T).T
+                        else:
+                            big = np.zeros((len(ls), 2 * ls[0] + 1), dtype=dt); big[:, ::2][:, :ls[0]] = m; m2 = big[:, ::2][:, :ls[0]]
+                        a = RaggedArray.from_numpy_array(m2)
+                        return [krows(a.tolist()), str(a.dtype), np.asarray(a.lengths).tolist(), krows(a.to_numpy_array().tolist())]
+                    add("fromnumpy " + show(ids) + " " + str(ls[0]), dt + "/" + layout, guarded(fromnp2), lambda v: None if v is None else [tr(v), dt, [len(r) for r in v], tr(v)],
+                        "from_numpy/" + layout, nt, f"RaggedArray.from_numpy_array(<{layout} layout of np.array({vrows!r}, dtype='{dt}').reshape({len(ls)},{ls[0]})>)")
             # save / load through a real file
             if si % 3 == 0 or tier == "thorough":
                 def saveload():
